@@ -14,7 +14,9 @@
   Only successful completions are modelled (an exception sets `outer` without looking at the counter).
   `Race.step` is the NON-atomic machine (three micro-steps per worker, any interleaving);
   `Race.astep` is the machine with an ATOMIC increment (LOAD+STORE fused — what a lock around `done += 1`
-  gives) but still a separate TEST, interleaved arbitrarily.
+  gives) but still a separate TEST, interleaved arbitrarily;
+  `Race.lstep` is the non-atomic machine under a LOCK held from LOAD to STORE (a worker that finds the lock
+  taken does not move).
 -/
 namespace PyGql.AsyncExec.Race
 
@@ -72,5 +74,23 @@ def astep (s : St) (i : Nat) : St :=
 def arun (s : St) : List Nat → St
   | [] => s
   | i :: rest => arun (astep s i) rest
+
+def PC.isLoaded : PC → Bool
+  | .loaded _ => true
+  | _ => false
+
+/-- the lock around `done += 1` is held: some worker is between LOAD and STORE -/
+def St.locked (s : St) : Bool := s.pcs.any PC.isLoaded
+
+/-- NON-atomic micro-steps under a LOCK held from LOAD to STORE (`with lock: done += 1`): a worker at `start`
+    that finds the lock taken does not move; everything else as `step` -/
+def lstep (s : St) (i : Nat) : St :=
+  match s.pcs[i]? with
+  | some .start => if s.locked then s else step s i
+  | _ => step s i
+
+def lrun (s : St) : List Nat → St
+  | [] => s
+  | i :: rest => lrun (lstep s i) rest
 
 end PyGql.AsyncExec.Race
